@@ -518,6 +518,16 @@ const (
 	allocPerByte = 1024
 )
 
+// 1 KiB per input byte absorbs fixed per-field costs on short inputs; on long inputs (above 16 KiB) the same decoders
+// stay below 16 bytes per input byte (evidence: alloc_bytes_per_input_byte_on_long_inputs), so 64 per byte is what
+// "in proportion" means there — a result built by repeated concatenation is far outside it
+func allocAllowance(n uint64) uint64 {
+	if n > 16<<10 {
+		return allocBase + 64*n
+	}
+	return allocBase + allocPerByte*n
+}
+
 func caseInputBytes(c Case) uint64 {
 	n := 0
 	for _, a := range c.MArgs {
@@ -544,7 +554,7 @@ func allocAudit(ctx *Ctx, cases []Case, ops map[string]OpDef, impl []implResult)
 		runtime.ReadMemStats(&ms)
 		before := ms.TotalAlloc
 		for _, i := range sub {
-			allow += allocBase + allocPerByte*caseInputBytes(cases[i])
+			allow += allocAllowance(caseInputBytes(cases[i]))
 			runImpl(ops[cases[i].Op].Impl, cases[i].MArgs, 20*time.Second)
 		}
 		runtime.ReadMemStats(&ms)
@@ -563,12 +573,24 @@ func allocAudit(ctx *Ctx, cases []Case, ops map[string]OpDef, impl []implResult)
 		if len(sub) == 1 {
 			c := cases[sub[0]]
 			ctx.AddMismatch(Mismatch{Kind: "spec", Case: c, Spec: "*", Size: caseSize(c),
-				Impl: fmt.Sprintf("allocated %d bytes for %d bytes of input (allowance %d + %d per input byte)", got, caseInputBytes(c), allocBase, allocPerByte)})
+				Impl: fmt.Sprintf("allocated %d bytes for %d bytes of input (allowance %d)", got, caseInputBytes(c), allocAllowance(caseInputBytes(c)))})
 			return
 		}
 		hunt(sub[:len(sub)/2])
 		hunt(sub[len(sub)/2:])
 	}
+	// long inputs are judged one by one (the slack of 63 short neighbours would hide them), the rest in chunks
+	var short []int
+	allIDs := ids
+	for _, i := range ids {
+		if caseInputBytes(cases[i]) > 16<<10 {
+			hunt([]int{i})
+			audited++
+		} else {
+			short = append(short, i)
+		}
+	}
+	ids = short
 	const chunk = 64
 	for lo := 0; lo < len(ids); lo += chunk {
 		hi := lo + chunk
@@ -578,10 +600,23 @@ func allocAudit(ctx *Ctx, cases []Case, ops map[string]OpDef, impl []implResult)
 		hunt(ids[lo:hi])
 		audited += hi - lo
 	}
+	// long inputs one by one: bytes allocated per input byte, per op (what "linear" looks like on this code)
+	long := map[string]float64{}
+	for _, i := range allIDs {
+		if strings.HasSuffix(cases[i].Tag, "text.long") {
+			got, _ := measure([]int{i})
+			if r := float64(got) / float64(caseInputBytes(cases[i])); r > long[cases[i].Op] {
+				long[cases[i].Op] = r
+			}
+		}
+	}
 	if ctx.Res.Extra == nil {
 		ctx.Res.Extra = map[string]any{}
 	}
-	ctx.Res.Extra["alloc_audit"] = map[string]any{"cases": audited, "allowance": fmt.Sprintf("%d + %d x input bytes", allocBase, allocPerByte), "largest_used_fraction_of_a_chunks_allowance": worst}
+	if len(long) > 0 {
+		ctx.Res.Extra["alloc_bytes_per_input_byte_on_long_inputs"] = long
+	}
+	ctx.Res.Extra["alloc_audit"] = map[string]any{"cases": audited, "allowance": fmt.Sprintf("%d + %d x input bytes (inputs above 16 KiB: %d + 64 x input bytes)", allocBase, allocPerByte, allocBase), "largest_used_fraction_of_a_chunks_allowance": worst}
 }
 
 func trunc(a []string) []string {
